@@ -16,6 +16,13 @@ def breakdown_cfg(rng: random.Random, tier: str) -> gen.GenCfg:
     return cfg
 
 
+def maybe_fractional(rng: random.Random, case: Dict[str, Any], k: int) -> None:
+    """Every eighth case: whole-microsecond starts with durations in quarter microseconds (the loader rounds nothing on such files)."""
+    if k % 8 == 5 and all(r["ticks"] == 1 for r in case["ranks"]):
+        from .cp import fractional_durations
+        fractional_durations(rng, case)
+
+
 def _breakdown_cfg(rng: random.Random, tier: str) -> gen.GenCfg:
     big = tier == "thorough" and rng.random() < 0.3
     return gen.GenCfg(
@@ -52,6 +59,7 @@ class C04(Prop):
         for _ in range(50):
             case = case_from_cfg(rng, breakdown_cfg(rng, tier))
             if all(any(e.get("pid") == 0 and e.get("ph") == "X" for e in r["events"]) for r in case["ranks"]):
+                maybe_fractional(rng, case, k)
                 case["prefix"] = draw_prefix(rng)
                 return case
         raise RuntimeError("could not generate a trace with device activities on every rank")
@@ -60,7 +68,8 @@ class C04(Prop):
         with hta.CaseDir("c04") as d:
             ta = write_and_load(case, d)
             ranks = sorted(ta.t.traces)
-            rows = {r: frame_rows(ta, r) for r in ranks}
+            u = int(case.get("u", 1))
+            rows = {r: frame_rows(ta, r, u=u) for r in ranks}
             obs = {"prop": "C04", "err": "", "ranks": []}
             if any(not any(x["stream"] != -1 for x in rows[r]) for r in ranks):
                 # trimming removed every device activity of some rank: outside the quantifier
@@ -84,8 +93,8 @@ class C04(Prop):
                 r = int(row["rank"])
                 obs["ranks"].append({
                     "rank": r, "file": file_entries(case, r), "rows": rows[r],
-                    "idle": hta.ival(row["idle_time(us)"]), "comp": hta.ival(row["compute_time(us)"]),
-                    "ncomp": hta.ival(row["non_compute_time(us)"]), "ktime": hta.ival(row["kernel_time(us)"]),
+                    "idle": hta.ival(row["idle_time(us)"] * u), "comp": hta.ival(row["compute_time(us)"] * u),
+                    "ncomp": hta.ival(row["non_compute_time(us)"] * u), "ktime": hta.ival(row["kernel_time(us)"] * u),
                     "idleP": hta.scaled(row["idle_time_pctg"], 100), "compP": hta.scaled(row["compute_time_pctg"], 100),
                     "ncompP": hta.scaled(row["non_compute_time_pctg"], 100),
                 })
